@@ -7,8 +7,9 @@ Decided:
          (kwargs.pop('code', self.code));
   R09.b  format table: every format of MIME_SUPPORT_MAP has a to_<fmt> method; DEFAULT_MIME is a key; in
          adapt() body and Content-Type come from the same (format, mimetype) pair on both branches (the
-         KeyError fallback is a pair of the table); render_error and default_render_error negotiate over the
-         same table and adapt the error to the winner;
+         fallback for an unsupported type -- KeyError handler, ``not in`` branch or ``.get() is None`` branch --
+         is a pair of the table); render_error and default_render_error negotiate over the same table and adapt
+         the error to the winner;
   R09.c  escaping: to_html / to_xml interpolate only the result of to_escaped_dict(), in which every
          stored value is '' or html_escape(x, True) on every path (quote=True because error_type is placed
          inside an attribute) -- or they render a shipped ashes template (R09.d);
@@ -17,18 +18,26 @@ Decided:
   R09.e  the JSON body carries code/message/detail/error_type: to_json encodes self.to_dict(), the base
          to_dict has the four keys, overrides extend the super() result.
 Declined: well-formedness of produced bytes, Accept negotiation inside werkzeug, JSON parseability.
+
+Constructs are located by role: values are followed through single-assignment locals (``local_value``), through
+straight-line helper functions the loader could not inline (``call_result_expr``, ``value_leaves``), through
+``**local_dict`` (``call_keywords``), loops over literal tables and comprehension / loop spellings.
 """
 import ast
+import copy
 import http
 import re
 
 from ..core import AnalysisError, norm, short
-from ..loader import ClassInfo
+from ..loader import ClassInfo, Unfoldable
+from ..astutil import assigned_value, argn, names_stored
+from ..layers import layers_of_var, layers_of_expr
 from .c20 import check_template_escaping, autoescape_writes
-from .common import (cfg_of, fkey, conds, has_cond, cond_texts, stmts_of, walk_body, call_tail, call_name, returns_of,
-                     raises_of, raise_type, stmt_of, kwarg, protected_by)
+from .common import (cfg_of, fkey, conds, has_cond, implies_absent, cond_texts, stmts_of, walk_body, call_tail, call_name,
+                     returns_of, raises_of, raise_type, stmt_of, kwarg, protected_by)
 
 ERR = 'clastic.errors'
+TABLE = 'MIME_SUPPORT_MAP'
 ALIASES = {}   # class name -> HTTPStatus member name, for names the CamelCase rule cannot derive
 
 
@@ -37,6 +46,245 @@ def snake(name):
     return s.upper()
 
 
+# ---------------------------------------------------------------------------------------------- value following
+def _param_names(fi):
+    a = fi.node.args
+    out = [x.arg for x in a.posonlyargs + a.args + a.kwonlyargs]
+    if a.vararg:
+        out.append(a.vararg.arg)
+    if a.kwarg:
+        out.append(a.kwarg.arg)
+    return out
+
+
+def _name_stores(fi, name):
+    """Every binding occurrence of a local name in the function (assignment targets, loop / with / comprehension
+    targets, handler names, imports, nested definitions)."""
+    out = []
+    for n in walk_body(fi.node):
+        if isinstance(n, ast.Name) and n.id == name and isinstance(n.ctx, (ast.Store, ast.Del)):
+            out.append(n)
+        elif isinstance(n, ast.ExceptHandler) and n.name == name:
+            out.append(n)
+        elif isinstance(n, (ast.FunctionDef, ast.AsyncFunctionDef, ast.ClassDef)) and n.name == name:
+            out.append(n)
+        elif isinstance(n, (ast.Import, ast.ImportFrom)) and any((a.asname or a.name).split('.')[0] == name for a in n.names):
+            out.append(n)
+    return out
+
+
+def local_value(fi, name, use_stmt=None):
+    """The expression a local holds at ``use_stmt``: the local has exactly one binding in the function, a plain
+    ``name = expr``, which dominates the use, and nothing in between re-binds a name the expression reads.
+    None otherwise (parameters, loop variables, re-assigned locals, globals)."""
+    if name in _param_names(fi):
+        return None
+    stores = _name_stores(fi, name)
+    if len(stores) != 1 or not isinstance(stores[0], ast.Name):
+        return None
+    st = stmt_of(fi.mod, stores[0])
+    if not isinstance(st, ast.Assign) or not any(t is stores[0] for t in st.targets):
+        return None
+    val = st.value
+    if use_stmt is None or use_stmt is st:
+        return val if use_stmt is None else None
+    cfg = cfg_of(fi)
+    ids, uses = cfg.nodes_of(st), cfg.nodes_of(use_stmt)
+    if not ids or not uses:
+        return None
+    for u in uses:
+        if not cfg.must_pass(ids, cfg.entry, u):
+            return None
+        after = [m for x in ids for m in cfg.succ[x]]
+        mid = (cfg.reach(after, avoid=ids) & cfg.coreach([u], avoid=ids)) - {u}
+        if cfg._kills(val, mid):
+            return None
+    return val
+
+
+def _use_stmt(fi, node):
+    try:
+        return stmt_of(fi.mod, node)
+    except Exception:
+        return None
+
+
+def expand_expr(fi, expr, use_stmt=None, depth=0, keep=()):
+    """A copy of ``expr`` in which single-assignment locals are replaced by the expressions they name (``body =
+    self.to_text(); f(response=body)`` reads as ``f(response=self.to_text())``).  ``use_stmt``: the statement the
+    expression belongs to (found through the parent map when omitted); ``keep``: names left as they are."""
+    if expr is None:
+        return None
+    if use_stmt is None:
+        use_stmt = _use_stmt(fi, expr)
+    if use_stmt is None or depth > 6:
+        return copy.deepcopy(expr)
+    shadowed = set(keep)
+    for n in ast.walk(expr):
+        if isinstance(n, ast.comprehension):
+            shadowed |= names_stored(n.target)
+        elif isinstance(n, ast.Lambda):
+            shadowed |= set(_param_names_of_args(n.args))
+
+    class X(ast.NodeTransformer):
+        def visit_Name(self, node):
+            if isinstance(node.ctx, ast.Load) and node.id not in shadowed:
+                v = local_value(fi, node.id, use_stmt)
+                if v is not None:
+                    return ast.copy_location(expand_expr(fi, v, _use_stmt(fi, v), depth + 1, keep), node)
+            return node
+    return X().visit(copy.deepcopy(expr))
+
+
+def _param_names_of_args(a):
+    out = [x.arg for x in a.posonlyargs + a.args + a.kwonlyargs]
+    if a.vararg:
+        out.append(a.vararg.arg)
+    if a.kwarg:
+        out.append(a.kwarg.arg)
+    return out
+
+
+def _mod_of(repo, node, default):
+    """Module whose globals the names of an expression refer to (expressions taken out of a helper of another module
+    are tagged with that module's name)."""
+    name = getattr(node, '_vt_mod', None)
+    return repo.mod(name) if name else default
+
+
+def _resolve_callee(repo, mod, fi, call):
+    """FuncInfo of the analysed tree a call names: a module-level function (possibly imported from another clastic
+    module) or a method reached through self / cls; None for everything else."""
+    f = call.func
+    if isinstance(f, ast.Name):
+        if fi is not None and (f.id in _param_names(fi) or _name_stores(fi, f.id)):
+            return None
+        kind, m, obj = repo.resolve(mod, f.id)
+        if kind == 'func' and m is not None and not m.external:
+            return obj
+        return None
+    if isinstance(f, ast.Attribute) and isinstance(f.value, ast.Name) and f.value.id in ('self', 'cls') and fi is not None \
+            and isinstance(fi.cls, ClassInfo):
+        m = repo.find_method(fi.cls, f.attr)
+        if m is not None and not m.mod.external:
+            return m
+    return None
+
+
+def _is_generator(fnode):
+    return any(isinstance(n, (ast.Yield, ast.YieldFrom)) for n in walk_body(fnode))
+
+
+def _falls_off(fi):
+    """Can the function end without executing a ``return``?"""
+    cfg = cfg_of(fi)
+    rn = cfg.nodes_of_all(returns_of(fi))
+    return not cfg.must_pass(rn, cfg.entry, cfg.exit, normal_only=True)
+
+
+def call_result_expr(repo, mod, fi, call):
+    """``helper(a, b)`` -> the expression the helper returns, its parameters replaced by the argument expressions, when
+    the helper is a function of the analysed tree with a single ``return`` that every call reaches and whose locals
+    are single assignments.  Nodes taken from the helper carry ``_vt_mod`` (the module their global names live in).
+    None when the call cannot be read that way."""
+    g = _resolve_callee(repo, mod, fi, call)
+    if g is None or _is_generator(g.node) or g.node.decorator_list and not all(
+            isinstance(d, ast.Name) and d.id == 'staticmethod' for d in g.node.decorator_list):
+        return None
+    a = g.node.args
+    if a.vararg or a.kwarg or any(isinstance(x, ast.Starred) for x in call.args) or any(k.arg is None for k in call.keywords):
+        return None
+    rets = returns_of(g)
+    if len(rets) != 1 or rets[0].value is None or _falls_off(g) or rets[0] not in g.node.body:
+        return None
+    params = [x.arg for x in a.posonlyargs + a.args]
+    static = any(isinstance(d, ast.Name) and d.id == 'staticmethod' for d in g.node.decorator_list)
+    binding = {}
+    if g.cls is not None and not static:
+        if not params or not isinstance(call.func, ast.Attribute):
+            return None
+        binding[params[0]] = call.func.value
+        params = params[1:]
+    if len(call.args) > len(params):
+        return None
+    for p, v in zip(params, call.args):
+        binding[p] = v
+    allp = params + [x.arg for x in a.kwonlyargs]
+    for k in call.keywords:
+        if k.arg in binding or k.arg not in allp:
+            return None
+        binding[k.arg] = k.value
+    defaults = dict(zip((a.posonlyargs + a.args)[len(a.posonlyargs + a.args) - len(a.defaults):], a.defaults))
+    defaults = dict((x.arg, d) for x, d in defaults.items())
+    defaults.update((x.arg, d) for x, d in zip(a.kwonlyargs, a.kw_defaults) if d is not None)
+    for p in allp:
+        if p not in binding:
+            if p not in defaults:
+                return None
+            binding[p] = ('default', defaults[p])
+    if any(_name_stores(g, p) for p in binding):
+        return None
+    body = expand_expr(g, rets[0].value, rets[0])
+    for n in ast.walk(body):
+        if not hasattr(n, '_vt_mod'):
+            n._vt_mod = g.mod.name
+
+    class S(ast.NodeTransformer):
+        def visit_Name(self, node):
+            if isinstance(node.ctx, ast.Load) and node.id in binding:
+                v = binding[node.id]
+                if isinstance(v, tuple):
+                    new, m = copy.deepcopy(v[1]), g.mod.name
+                else:
+                    new, m = copy.deepcopy(v), mod.name
+                for n in ast.walk(new):
+                    if not hasattr(n, '_vt_mod'):
+                        n._vt_mod = m
+                return ast.copy_location(new, node)
+            return node
+    return S().visit(body)
+
+
+def call_keywords(fi, call, pos_names=()):
+    """(name -> value expression, [unreadable parts]) of the arguments of a call, looking through ``**local`` when the
+    local is a dict assembled in this function from literal keys."""
+    out, opaque = {}, []
+    for i, a in enumerate(call.args):
+        if isinstance(a, ast.Starred):
+            opaque.append(norm(a))
+            break
+        if i < len(pos_names):
+            out[pos_names[i]] = a
+    for k in call.keywords:
+        if k.arg is not None:
+            out[k.arg] = k.value
+            continue
+        if isinstance(k.value, ast.Name) and k.value.id not in _param_names(fi):
+            try:
+                ls = layers_of_var(fi.node, k.value.id)
+            except AnalysisError as e:
+                opaque.append('%s (%s)' % (k.value.id, e))
+                continue
+            for l in ls:
+                if l.kind == 'literal':
+                    for kk, vv in l.values.items():
+                        if l.below and kk in out:
+                            continue
+                        out[kk] = vv
+                else:
+                    opaque.append(l.text)
+        elif isinstance(k.value, ast.Dict):
+            for l in layers_of_expr(k.value):
+                if l.kind == 'literal':
+                    out.update(l.values)
+                else:
+                    opaque.append(l.text)
+        else:
+            opaque.append(norm(k.value))
+    return out, opaque
+
+
+# ---------------------------------------------------------------------------------------------- shared with C08
 def check_template_constancy(rep, rule):
     """In every to_* serialiser of the HTTPException family the *template* of a ``.format(...)`` / ``%`` is made of
     string constants only.  Data interpolated into a string that is formatted again turns the data into a format
@@ -51,9 +299,13 @@ def check_template_constancy(rep, rule):
         for name, m in sorted(c.methods.items()):
             if not name.startswith('to_') or name in ('to_dict', 'to_escaped_dict'):
                 continue
+            params = set(_param_names(m))
+
+            def const_value(v):
+                return isinstance(v, str) or (isinstance(v, (list, tuple)) and all(isinstance(x, str) for x in v))
 
             def const_expr(e, depth=0):
-                """is this string-valued expression built from constants only?"""
+                """is this string-valued (or list-of-strings-valued) expression built from constants only?"""
                 if depth > 8:
                     return False
                 if isinstance(e, ast.Constant):
@@ -62,21 +314,39 @@ def check_template_constancy(rep, rule):
                     return all(isinstance(v, ast.Constant) for v in e.values)
                 if isinstance(e, ast.BinOp) and isinstance(e.op, ast.Add):
                     return const_expr(e.left, depth + 1) and const_expr(e.right, depth + 1)
+                if isinstance(e, ast.IfExp):
+                    return const_expr(e.body, depth + 1) and const_expr(e.orelse, depth + 1)
                 if isinstance(e, (ast.List, ast.Tuple)):
                     return all(const_expr(x, depth + 1) for x in e.elts)
-                if isinstance(e, ast.Call) and isinstance(e.func, ast.Attribute) and e.func.attr == 'join' and len(e.args) == 1:
+                if isinstance(e, ast.Call) and isinstance(e.func, ast.Attribute) and e.func.attr == 'join' and len(e.args) == 1 \
+                        and not e.keywords:
                     return const_expr(e.func.value, depth + 1) and const_expr(e.args[0], depth + 1)
+                if isinstance(e, ast.Call) and isinstance(e.func, ast.Name) and e.func.id in ('list', 'tuple') and not e.keywords \
+                        and len(e.args) <= 1 and e.func.id not in params and not _name_stores(m, e.func.id):
+                    # a fresh copy of a constant sequence (``lines = list(_HEAD_LINES)``)
+                    return not e.args or const_expr(e.args[0], depth + 1)
                 if isinstance(e, ast.Name):
-                    srcs = [s.value for s in stmts_of(m.node) if isinstance(s, ast.Assign) and norm(s.targets[0]) == e.id]
+                    if e.id in params:
+                        return False
+                    srcs = [s.value for s in stmts_of(m.node) if isinstance(s, ast.Assign) and any(norm(t) == e.id for t in s.targets)]
                     adds = [c_ for c_ in walk_body(m.node) if isinstance(c_, ast.Call) and isinstance(c_.func, ast.Attribute)
                             and norm(c_.func.value) == e.id and c_.func.attr in ('append', 'extend', 'insert')]
                     augs = [s.value for s in stmts_of(m.node) if isinstance(s, ast.AugAssign) and norm(s.target) == e.id]
+                    if len(srcs) + len(augs) != len(_name_stores(m, e.id)):
+                        return False    # bound in some other way (loop variable, tuple unpacking, ...)
                     if not srcs:
+                        if augs or adds:
+                            return False
                         try:
-                            return isinstance(repo.fold(e, err), str)
+                            return const_value(repo.fold(e, err))
                         except Exception:
                             return False
-                    return all(const_expr(v, depth + 1) for v in srcs + augs) and all(const_expr(a.args[-1], depth + 1) for a in adds)
+                    return all(const_expr(v, depth + 1) for v in srcs + augs) and all(a.args and const_expr(a.args[-1], depth + 1) for a in adds)
+                if isinstance(e, (ast.Attribute, ast.Subscript)):
+                    try:
+                        return const_value(repo.fold(e, err))
+                    except Exception:
+                        return False
                 return False
             for node in walk_body(m.node):
                 tmpl = None
@@ -96,6 +366,24 @@ def check_template_constancy(rep, rule):
     return n
 
 
+def _escape_scope(repo, err, ted):
+    """to_escaped_dict and the functions of the errors module it calls (a refactoring may move the per-field work into a
+    helper the loader cannot inline, e.g. one called from a comprehension)."""
+    scope, todo = [ted], [(ted, 0)]
+    while todo:
+        fi, d = todo.pop()
+        if d >= 3:
+            continue
+        for c in walk_body(fi.node):
+            if not isinstance(c, ast.Call):
+                continue
+            g = _resolve_callee(repo, fi.mod, fi, c)
+            if g is not None and g.mod is err and not any(g is x for x in scope):
+                scope.append(g)
+                todo.append((g, d + 1))
+    return scope
+
+
 def check_escape_total(rep, rule):
     """html_escape() only accepts text: in to_escaped_dict every call is either an *attempt* (under an Exception handler
     with a fallback) or applied to the result of a text constructor (repr / str / format).  Otherwise a bytes or other
@@ -104,19 +392,541 @@ def check_escape_total(rep, rule):
     err = repo.mod(ERR)
     ted = err.cls('HTTPException').methods['to_escaped_dict']
     n = 0
-    for c in walk_body(ted.node):
-        if isinstance(c, ast.Call) and call_name(c) == 'html_escape' and c.args:
-            n += 1
-            a = c.args[0]
-            texty = isinstance(a, ast.Call) and isinstance(a.func, ast.Name) and a.func.id in ('repr', 'str', 'unicode', 'format', 'ascii')
-            h = protected_by(ted, c, 'TypeError')
-            guarded = h is not None and not any(isinstance(x, ast.Raise) for x in ast.walk(h))
-            rep.check(rule, fkey(ted, c), texty or guarded,
-                      'html_escape(%s) is %s' % (short(a, 30), 'applied to constructed text' if texty else 'an attempt with a fallback') if texty or guarded else
-                      'html_escape(%s) is neither guarded nor applied to constructed text: a bytes / non-text field makes every HTML and XML '
-                      'error rendering (and the default-rendering fallback) raise TypeError' % short(a, 40), err, c)
+    for fi in _escape_scope(repo, err, ted):
+        for c in walk_body(fi.node):
+            if isinstance(c, ast.Call) and call_name(c) == 'html_escape' and c.args:
+                n += 1
+                a = expand_expr(fi, c.args[0], _use_stmt(fi, c))
+                texty = isinstance(a, ast.Call) and isinstance(a.func, ast.Name) and a.func.id in ('repr', 'str', 'unicode', 'format', 'ascii')
+                h = protected_by(fi, c, 'TypeError')
+                guarded = h is not None and not any(isinstance(x, ast.Raise) for x in ast.walk(h))
+                rep.check(rule, fkey(ted, c), texty or guarded,
+                          'html_escape(%s) is %s' % (short(a, 30), 'applied to constructed text' if texty else 'an attempt with a fallback') if texty or guarded else
+                          'html_escape(%s) is neither guarded nor applied to constructed text: a bytes / non-text field makes every HTML and XML '
+                          'error rendering (and the default-rendering fallback) raise TypeError' % short(c.args[0], 40), err, c)
     if n < 1:
         raise AnalysisError('to_escaped_dict: html_escape calls not found')
+
+
+# ---------------------------------------------------------------------------------------------- escaping (R09.c)
+def _escaped_leaf(v):
+    if isinstance(v, ast.Constant) and v.value == '':
+        return True
+    if isinstance(v, ast.Call) and call_name(v) == 'html_escape':
+        q = argn(v, 'quote', 1)
+        return isinstance(q, ast.Constant) and q.value is True and len(v.args) <= 2
+    return False
+
+
+def value_leaves(repo, fi, e, depth=0, seen=None):
+    """[(function, expression)]: the expressions one of which is the value of ``e`` -- through conditional
+    expressions, and/or, (re-)assigned locals and the ``return``s of functions of the analysed tree."""
+    seen = set() if seen is None else seen
+    if depth > 8:
+        return [(fi, e)]
+    if isinstance(e, ast.IfExp):
+        return value_leaves(repo, fi, e.body, depth + 1, seen) + value_leaves(repo, fi, e.orelse, depth + 1, seen)
+    if isinstance(e, ast.BoolOp):
+        out = []
+        for v in e.values:
+            out += value_leaves(repo, fi, v, depth + 1, seen)
+        return out
+    if isinstance(e, ast.Name):
+        key = (id(fi.node), e.id)
+        if key in seen or e.id in _param_names(fi):
+            return [(fi, e)]
+        binds = assigned_value(fi.node, e.id)
+        if not binds or len(binds) != len(_name_stores(fi, e.id)) or \
+                any(idx is not None or not isinstance(st, ast.Assign) for st, v, idx in binds):
+            return [(fi, e)]
+        seen.add(key)
+        out = []
+        for st, v, idx in binds:
+            out += value_leaves(repo, fi, v, depth + 1, seen)
+        return out
+    if isinstance(e, ast.Call) and call_name(e) != 'html_escape':
+        g = _resolve_callee(repo, fi.mod, fi, e)
+        plain = g is not None and all(isinstance(d, ast.Name) and d.id in ('staticmethod', 'classmethod') for d in g.node.decorator_list)
+        if plain and not _is_generator(g.node) and (id(g.node), '()') not in seen:
+            seen.add((id(g.node), '()'))
+            out = []
+            for r in returns_of(g):
+                if r.value is None:
+                    out.append((g, ast.copy_location(ast.Constant(value=None), r)))
+                else:
+                    out += value_leaves(repo, g, r.value, depth + 1, seen)
+            if _falls_off(g):
+                out.append((g, ast.copy_location(ast.Constant(value=None), g.node)))
+            return out
+    return [(fi, e)]
+
+
+def _is_fields_iter(fi, e, stmt):
+    return norm(expand_expr(fi, e, stmt)) == 'self.to_dict().items()'
+
+
+def check_escaped_dict(rep, repo, err, base):
+    """Every value of the mapping to_escaped_dict() returns is '' or html_escape(x, True), and every field of to_dict()
+    gets an entry -- whether the mapping is filled by a loop or built by a comprehension, with the per-field work
+    in place or in a helper."""
+    ted = base.methods['to_escaped_dict']
+    rets = returns_of(ted)
+    if len(rets) != 1 or rets[0].value is None:
+        raise AnalysisError('to_escaped_dict: a single returned mapping was not found')
+    rv = rets[0].value
+    sites = []      # (key node, function, leaf expression)
+    comp, rname = None, None
+    if isinstance(rv, ast.Name):
+        rname = rv.id
+        inits = assigned_value(ted.node, rname)
+        if len(inits) != 1 or inits[0][2] is not None or not isinstance(inits[0][0], ast.Assign):
+            raise AnalysisError('to_escaped_dict: construction of the returned mapping not recognised')
+        init = inits[0][1]
+        if isinstance(init, ast.DictComp):
+            comp = init
+        elif not ((isinstance(init, ast.Dict) and not init.keys) or
+                  (isinstance(init, ast.Call) and call_name(init) in ('dict', 'OrderedDict') and not init.args and not init.keywords)):
+            raise AnalysisError('to_escaped_dict: construction of the returned mapping not recognised (%s)' % short(init, 60))
+    elif isinstance(rv, ast.DictComp):
+        comp = rv
+    else:
+        raise AnalysisError('to_escaped_dict: construction of the returned mapping not recognised (%s)' % short(rv, 60))
+    stores = []
+    if rname is not None:
+        stores = [s for s in stmts_of(ted.node) if isinstance(s, ast.Assign) and any(isinstance(t, ast.Subscript) and norm(t.value) == rname
+                                                                                    for t in s.targets)]
+        for s in stores:
+            for f_, leaf in value_leaves(repo, ted, s.value):
+                sites.append((s, f_, leaf))
+        for c in walk_body(ted.node):
+            if isinstance(c, ast.Call) and isinstance(c.func, ast.Attribute) and norm(c.func.value) == rname and \
+                    c.func.attr in ('update', 'setdefault', '__setitem__'):
+                sites.append((c, ted, c))
+    complete = False
+    if comp is not None:
+        g = comp.generators
+        tgt = g[0].target if len(g) == 1 else None
+        complete = len(g) == 1 and not g[0].ifs and not g[0].is_async and _is_fields_iter(ted, g[0].iter, stmt_of(err, comp)) and \
+            isinstance(tgt, ast.Tuple) and len(tgt.elts) == 2 and isinstance(tgt.elts[0], ast.Name) and norm(comp.key) == tgt.elts[0].id
+        for f_, leaf in value_leaves(repo, ted, comp.value):
+            sites.append((comp.value, f_, leaf))
+    else:
+        if len(stores) < 1:
+            raise AnalysisError('to_escaped_dict: stores into the result dict not found')
+        loops = [s for s in stmts_of(ted.node) if isinstance(s, ast.For)]
+        if len(loops) == 1 and _is_fields_iter(ted, loops[0].iter, loops[0]):
+            tcfg = cfg_of(ted)
+            # every iteration stores: the loop head is only re-entered through a store
+            iter_nodes = [n.id for n in tcfg.nodes if n.kind == 'iter' and n.stmt is loops[0]]
+            complete = tcfg.must_pass(tcfg.nodes_of_all(stores), iter_nodes, tcfg.nodes_of(loops[0]), normal_only=True)
+    if len(sites) < 1:
+        raise AnalysisError('to_escaped_dict: stored values not found')
+    seen_keys = {}
+    for keynode, f_, leaf in sites:
+        ok = _escaped_leaf(leaf)
+        k = fkey(ted, keynode) if f_ is ted and leaf is keynode else fkey(ted, '%s <- %s' % (short(keynode, 60), short(leaf, 60)))
+        if isinstance(keynode, ast.Assign) and f_ is ted and leaf is keynode.value:
+            k = fkey(ted, keynode)
+        seen_keys[k] = seen_keys.get(k, 0) + 1
+        rep.check('R09.c', k, ok, 'stored value is %s' % short(leaf, 50) if ok else
+                  'to_escaped_dict stores %s: not html_escape(x, True) (quotes must be escaped: error_type is placed in an attribute)' % short(leaf),
+                  f_.mod, leaf if hasattr(leaf, 'lineno') else keynode)
+    rep.check('R09.c', fkey(ted, 'all fields'), complete, 'every field of to_dict() gets an escaped entry' if complete else
+              'to_escaped_dict can skip fields of to_dict()', err, ted.node)
+
+
+def check_markup_sinks(rep, repo, err, fam):
+    n_sinks = 0
+    for c in fam:
+        for name in ('to_html', 'to_xml'):
+            m = c.methods.get(name)
+            if m is None:
+                continue
+            n_sinks += 1
+            # (B) shipped template
+            rets = returns_of(m)
+            tmpl_rets = [r for r in rets if isinstance(expand_expr(m, r.value, r), ast.Call) and
+                         norm(expand_expr(m, r.value, r).func) == 'CONTEXTUAL_ENV.render']
+            if tmpl_rets and len(tmpl_rets) == len(rets):
+                names = [_template_name(repo, err, m, expand_expr(m, r.value, r)) for r in tmpl_rets]
+                rep.ok('R09.c', fkey(m), 'renders shipped template(s) %s (escaping: R09.d)' % names, err, m.node)
+                continue
+
+            # (A) format with the escaped dict
+            def is_escaped_map(e, st):
+                return norm(expand_expr(m, e, st)) == 'self.to_escaped_dict()'
+
+            def is_escaped_field(e, st):
+                return isinstance(e, ast.Subscript) and isinstance(e.slice, ast.Constant) and is_escaped_map(e.value, st)
+            sinks, bad = [], []
+            for n_ in walk_body(m.node):
+                st = None
+                if isinstance(n_, ast.Call) and isinstance(n_.func, ast.Attribute) and n_.func.attr in ('format', 'format_map'):
+                    sinks.append(n_)
+                    st = stmt_of(err, n_)
+                    if n_.func.attr == 'format_map':
+                        good = len(n_.args) == 1 and not n_.keywords and is_escaped_map(n_.args[0], st)
+                    else:
+                        good = bool(n_.args or n_.keywords) and all(is_escaped_field(a, st) for a in n_.args) and \
+                            all(is_escaped_map(k_.value, st) if k_.arg is None else is_escaped_field(k_.value, st) for k_ in n_.keywords)
+                    if not good:
+                        bad.append(n_)
+                elif isinstance(n_, ast.BinOp) and isinstance(n_.op, ast.Mod) and \
+                        not (isinstance(n_.left, ast.Constant) and not isinstance(n_.left.value, str)):
+                    sinks.append(n_)
+                    st = stmt_of(err, n_)
+                    r = n_.right
+                    good = is_escaped_map(r, st) or is_escaped_field(r, st) or \
+                        (isinstance(r, ast.Tuple) and r.elts and all(is_escaped_field(x, st) for x in r.elts))
+                    if not good:
+                        bad.append(n_)
+                elif isinstance(n_, ast.JoinedStr) and any(isinstance(v, ast.FormattedValue) for v in n_.values):
+                    sinks.append(n_)
+                    st = stmt_of(err, n_)
+                    if not all(is_escaped_field(v.value, st) for v in n_.values if isinstance(v, ast.FormattedValue)):
+                        bad.append(n_)
+            if not sinks:
+                raise AnalysisError('%s.%s: construction of the markup not recognised (no format / %% / f-string)' % (c.name, name))
+            ok = not bad
+            rep.check('R09.c', fkey(m), ok, 'markup is built by .format(**to_escaped_dict()) only' if ok else
+                      '%s.%s interpolates unescaped fields into markup: %s' % (c.name, name, [short(b) for b in bad]), err,
+                      (bad or [m.node])[0])
+            # no direct use of raw fields in the returned string
+            raw = [n_ for n_ in walk_body(m.node) if isinstance(n_, ast.Call) and norm(n_.func) == 'self.to_dict']
+            rep.check('R09.c', fkey(m, 'no raw dict'), not raw, 'the raw to_dict() is not used for markup' if not raw else
+                      '%s.%s uses the unescaped to_dict()' % (c.name, name), err, raw[0] if raw else m.node)
+            # the escaped mapping stays escaped: nothing is stored into it afterwards
+            evars = [s.targets[0].id for s in stmts_of(m.node) if isinstance(s, ast.Assign) and len(s.targets) == 1 and
+                     isinstance(s.targets[0], ast.Name) and norm(s.value) == 'self.to_escaped_dict()']
+            muts = [n_ for n_ in walk_body(m.node)
+                    if (isinstance(n_, ast.Subscript) and isinstance(n_.ctx, (ast.Store, ast.Del)) and norm(n_.value) in evars) or
+                    (isinstance(n_, ast.Call) and isinstance(n_.func, ast.Attribute) and norm(n_.func.value) in evars and
+                     n_.func.attr in ('update', 'setdefault', '__setitem__'))]
+            rep.check('R09.c', fkey(m, 'escaped mapping unmodified'), not muts, 'nothing is stored into the escaped mapping' if not muts else
+                      '%s.%s stores %s into the escaped mapping before interpolating it' % (c.name, name, short(muts[0], 60)), err,
+                      muts[0] if muts else m.node)
+    if n_sinks < 4:
+        raise AnalysisError('only %d to_html/to_xml methods found (floor 4)' % n_sinks)
+
+
+def _template_name(repo, mod, fi, render_call):
+    """Folded first argument of CONTEXTUAL_ENV.render(name, ctx); ``self.attr`` is looked up on the class."""
+    a = argn(render_call, 'name', 0)
+    if a is None:
+        raise AnalysisError('%s: template name of %s not found' % (fi.qualname, short(render_call, 60)))
+    v = repo.try_fold(a, mod)
+    if v is None and isinstance(a, ast.Attribute) and isinstance(a.value, ast.Name) and a.value.id in ('self', 'cls') and \
+            isinstance(fi.cls, ClassInfo):
+        dc, val = repo.class_attr(fi.cls, a.attr)
+        if val is not None and not isinstance(val, (ast.FunctionDef, ast.AsyncFunctionDef)):
+            v = repo.try_fold(val, dc.mod)
+    if not isinstance(v, str):
+        raise AnalysisError('%s: template name %s is not a constant' % (fi.qualname, short(a, 60)))
+    return v
+
+
+# ---------------------------------------------------------------------------------------------- R09.b helpers
+def _is_table(e):
+    return isinstance(e, ast.Name) and e.id == TABLE
+
+
+def check_adapt(rep, repo, err, base, msm):
+    ad = base.methods['adapt']
+    ps = ad.params()
+    if len(ps) < 2:
+        raise AnalysisError('adapt: the mimetype parameter was not found')
+    mp = ps[1]
+    look = []
+    for s in stmts_of(ad.node):
+        if isinstance(s, ast.Assign) and len(s.targets) == 1 and isinstance(s.targets[0], ast.Name):
+            v = s.value
+            if isinstance(v, ast.Subscript) and _is_table(v.value) and norm(v.slice) == mp:
+                look.append((s, 'index'))
+            elif isinstance(v, ast.Call) and isinstance(v.func, ast.Attribute) and v.func.attr == 'get' and _is_table(v.func.value) \
+                    and v.args and norm(v.args[0]) == mp and not v.keywords:
+                look.append((s, 'get' if len(v.args) == 1 or (isinstance(v.args[1], ast.Constant) and v.args[1].value is None) else 'get-default'))
+    if len(look) != 1:
+        raise AnalysisError('adapt: the lookup of the requested type in %s was not found (%d candidates)' % (TABLE, len(look)))
+    lookup, kind = look[0]
+    fv = lookup.targets[0].id
+    # every other (re-)binding of the format variable and of the mimetype parameter
+    reb = {fv: [], mp: []}
+    for s in stmts_of(ad.node):
+        if s is lookup:
+            continue
+        pairs = []
+        if isinstance(s, ast.Assign):
+            for t in s.targets:
+                if isinstance(t, (ast.Tuple, ast.List)) and isinstance(s.value, (ast.Tuple, ast.List)) and len(t.elts) == len(s.value.elts) \
+                        and not any(isinstance(x, ast.Starred) for x in t.elts + s.value.elts):
+                    for te, ve in zip(t.elts, s.value.elts):
+                        pairs += [(nm, ve if isinstance(te, ast.Name) else None) for nm in names_stored(te)]
+                else:
+                    pairs += [(nm, s.value if isinstance(t, ast.Name) else None) for nm in names_stored(t)]
+        elif isinstance(s, (ast.AugAssign, ast.AnnAssign)):
+            pairs += [(nm, None) for nm in names_stored(s.target)]
+        elif isinstance(s, (ast.For, ast.AsyncFor)):
+            pairs += [(nm, None) for nm in names_stored(s.target)]
+        elif isinstance(s, (ast.With, ast.AsyncWith)):
+            for it in s.items:
+                if it.optional_vars is not None:
+                    pairs += [(nm, None) for nm in names_stored(it.optional_vars)]
+        for nm, v in pairs:
+            if nm in reb:
+                reb[nm].append((s, v))
+    for tr in [s for s in stmts_of(ad.node) if isinstance(s, ast.Try)]:
+        for h in tr.handlers:
+            if h.name in reb:
+                reb[h.name].append((tr, None))
+
+    def member(pos):
+        def pred(t):
+            return isinstance(t, ast.Compare) and len(t.ops) == 1 and isinstance(t.ops[0], ast.In if pos else ast.NotIn) and \
+                norm(t.left) == mp and _is_table(t.comparators[0])
+        return pred
+    h = protected_by(ad, lookup, 'KeyError') if kind == 'index' else None
+    if h is not None and any(isinstance(x, ast.Raise) for x in ast.walk(h)):
+        h = None
+    cl = conds(ad, lookup)
+    guarded_by_test = kind == 'index' and (has_cond(cl, member(True), True) or has_cond(cl, member(False), False))
+
+    def in_fallback(st):
+        if kind == 'index':
+            if h is not None and any(x is st for b in h.body for x in ast.walk(b)):
+                return True
+            if guarded_by_test:
+                cs = conds(ad, st)
+                return has_cond(cs, member(True), False) or has_cond(cs, member(False), True)
+            return False
+        if kind == 'get':
+            return implies_absent(conds(ad, st), fv)
+        return False
+    shape = len(reb[fv]) == 1 and len(reb[mp]) == 1 and reb[fv][0][1] is not None and reb[mp][0][1] is not None
+    pair = (repo.try_fold(reb[fv][0][1], err), repo.try_fold(reb[mp][0][1], err)) if shape else None
+    fb_ok = shape and isinstance(pair[0], str) and isinstance(pair[1], str) and msm.get(pair[1]) == pair[0] and pair[0] == 'text' and \
+        in_fallback(reb[fv][0][0]) and in_fallback(reb[mp][0][0]) and (kind != 'index' or h is not None or guarded_by_test)
+    acfg = cfg_of(ad)
+    if not fb_ok and kind == 'index' and h is None and not guarded_by_test and not reb[fv] and len(reb[mp]) == 1 and reb[mp][0][1] is not None:
+        # the key is normalised first (``if mimetype not in TABLE: mimetype = 'text/plain'``), the lookup is then total:
+        # every path to the lookup has seen the membership test succeed or has re-bound the key to a key of the table
+        st_, v_ = reb[mp][0]
+        key = repo.try_fold(v_, err)
+        cs = conds(ad, st_)
+        neg = has_cond(cs, member(True), False) or has_cond(cs, member(False), True)
+        pos_nodes = [nid for nid, t, p in acfg.branches() if (member(True)(t) and p) or (member(False)(t) and not p)]
+        fb_ok = neg and isinstance(key, str) and msm.get(key) == 'text' and \
+            acfg.must_pass(pos_nodes + acfg.nodes_of(st_), acfg.entry, acfg.nodes_of(lookup))
+    rep.check('R09.b', fkey(ad, 'fallback pair'), fb_ok,
+              'an unsupported type falls back to a (format, mimetype) pair of the table, re-binding both' if fb_ok else
+              'the fallback for unsupported types does not re-bind format and mimetype to a matching pair', err, ad.node)
+    # body and header are both derived from (fv, mp)
+    MARK = '\x00fmt\x00'
+
+    def is_serialiser_call(e):
+        if not (isinstance(e, ast.Call) and not e.args and not e.keywords):
+            return False
+        g = e.func
+        if not (isinstance(g, ast.Call) and call_name(g) == 'getattr' and len(g.args) == 2 and not g.keywords and norm(g.args[0]) == 'self'):
+            return False
+        try:
+            return repo.fold(g.args[1], err, {fv: MARK}) == 'to_' + MARK
+        except Unfoldable:
+            return False
+    data = []
+    for s in stmts_of(ad.node):
+        if isinstance(s, ast.Assign) and any(norm(t) == 'self.data' for t in s.targets):
+            data.append((s, s.value))
+        elif isinstance(s, ast.Expr) and isinstance(s.value, ast.Call) and norm(s.value.func) == 'self.set_data' and s.value.args:
+            data.append((s, s.value.args[0]))
+    ct = []
+    for s in stmts_of(ad.node):
+        if not isinstance(s, ast.Assign):
+            continue
+        for t in s.targets:
+            if isinstance(t, ast.Subscript) and norm(t.value) == 'self.headers' and isinstance(t.slice, ast.Constant) and \
+                    isinstance(t.slice.value, str) and t.slice.value.lower() == 'content-type':
+                ct.append((s, 'header'))
+            elif norm(t) in ('self.content_type', 'self.mimetype'):
+                ct.append((s, norm(t)))
+    if len(data) != 1 or len(ct) != 1:
+        raise AnalysisError('adapt: the statements setting the body (%d) and the Content-Type (%d) were not found' % (len(data), len(ct)))
+    dv = expand_expr(ad, data[0][1], data[0][0], keep=(fv, mp))
+    ok_body = is_serialiser_call(dv)
+    cv = expand_expr(ad, ct[0][0].value, ct[0][0], keep=(fv, mp))
+    if ct[0][1] == 'self.mimetype':
+        ok_ct = isinstance(cv, ast.Name) and cv.id == mp
+    else:
+        a0 = argn(cv, 'mimetype', 0) if isinstance(cv, ast.Call) and call_tail(cv) == 'get_content_type' else None
+        ok_ct = isinstance(a0, ast.Name) and a0.id == mp
+    dn, cn = acfg.nodes_of(data[0][0]), acfg.nodes_of(ct[0][0])
+    defs = acfg.nodes_of(lookup) + acfg.nodes_of_all([s for nm in reb for s, v in reb[nm]])
+    ok = ok_body and ok_ct and acfg.must_pass(defs, acfg.entry, dn + cn) and acfg.must_pass(dn, acfg.entry, acfg.exit, normal_only=True) and \
+        acfg.must_pass(cn, acfg.entry, acfg.exit, normal_only=True) and \
+        not (set(defs) & acfg.reach(dn + cn, include_src=False))
+    rep.check('R09.b', fkey(ad, 'body and header from one pair'), ok,
+              'self.data = to_<fmt>() and Content-Type = get_content_type(mimetype) use the same (fmt, mimetype) on every path' if ok else
+              'body and Content-Type are not both derived from the one (format, mimetype) pair', err, ad.node)
+
+
+def negotiated_over_table(repo, err, mod, fi, expr, use_stmt):
+    """Is ``expr`` the Accept negotiation ``<request>.accept_mimetypes.best_match(MIME_SUPPORT_MAP)`` over the errors
+    module's table -- written in place, named first, or computed by a straight-line helper?"""
+    e = expand_expr(fi, expr, use_stmt)
+    for _ in range(4):
+        if isinstance(e, ast.Call) and call_tail(e) == 'best_match':
+            break
+        if not isinstance(e, ast.Call):
+            return False
+        em = _mod_of(repo, e, mod)
+        e = call_result_expr(repo, em, fi if em is mod else None, e)
+        if e is None:
+            return False
+    else:
+        return False
+    recv = e.func.value if isinstance(e.func, ast.Attribute) else None
+    if not (isinstance(recv, ast.Attribute) and recv.attr == 'accept_mimetypes' and isinstance(recv.value, ast.Name)
+            and recv.value.id in fi.params() and _mod_of(repo, recv.value, mod) is mod):
+        return False
+    table = argn(e, 'matches', 0)
+    # the same keys in the same order: list(T), tuple(T), T.keys(), iter(T)
+    for _ in range(2):
+        if isinstance(table, ast.Call) and isinstance(table.func, ast.Name) and table.func.id in ('list', 'tuple', 'iter') and \
+                len(table.args) == 1 and not table.keywords:
+            table = table.args[0]
+        elif isinstance(table, ast.Call) and isinstance(table.func, ast.Attribute) and table.func.attr == 'keys' and not table.args \
+                and not table.keywords:
+            table = table.func.value
+    if not _is_table(table):
+        return False
+    tm = _mod_of(repo, table, mod)
+    if tm is mod and (TABLE in _param_names(fi) or _name_stores(fi, TABLE)):
+        return False
+    k, m_, obj = repo.resolve(tm, TABLE)
+    return m_ is err and k == 'value'
+
+
+# ---------------------------------------------------------------------------------------------- R09.d helpers
+def registered_templates(repo, ce):
+    """name -> (label, source expression) for every CONTEXTUAL_ENV.register_source(name, source) executed at import:
+    at module level or in a function the module calls at its top level; a call inside ``for name, src in <literal
+    table>`` counts once per row."""
+    top_calls = [n_.value for n_ in ce.tree.body if isinstance(n_, ast.Expr) and isinstance(n_.value, ast.Call)
+                 and isinstance(n_.value.func, ast.Name)]
+    scopes_ = [(None, ce.tree.body)]
+    called = []
+    for c in top_calls:
+        fi = ce.functions.get(c.func.id)
+        if fi is not None and fi.cls is None:
+            called.append((fi, c))
+            scopes_.append((fi, fi.node.body))
+    out = {}
+    n_calls = 0
+    for fi, body in scopes_:
+        todo = list(body)
+        nodes = []
+        while todo:
+            n = todo.pop()
+            if isinstance(n, (ast.FunctionDef, ast.AsyncFunctionDef, ast.ClassDef, ast.Lambda)):
+                continue
+            nodes.append(n)
+            todo.extend(ast.iter_child_nodes(n))
+        for c in nodes:
+            if not (isinstance(c, ast.Call) and norm(c.func) == 'CONTEXTUAL_ENV.register_source'):
+                continue
+            n_calls += 1
+            a_name, a_src = argn(c, 'name', 0), argn(c, 'source', 1)
+            if a_name is None or a_src is None:
+                raise AnalysisError('register_source call %s: name / source argument not found' % short(c, 60))
+            rows = [{}]
+            cur = ce.parents.get(c)
+            while cur is not None and not isinstance(cur, (ast.FunctionDef, ast.AsyncFunctionDef, ast.Module)):
+                if isinstance(cur, (ast.For, ast.AsyncFor)) and (names_stored(cur.target) & (_names(a_name) | _names(a_src))):
+                    rows = _loop_rows(repo, ce, fi, cur)
+                    break
+                cur = ce.parents.get(cur)
+            for env in rows:
+                nm = _subst(a_name, env)
+                sx = _subst(a_src, env)
+                if fi is not None:
+                    nm = expand_expr(fi, nm, stmt_of(ce, c)) if not env else nm
+                    sx = expand_expr(fi, sx, stmt_of(ce, c)) if not env else sx
+                name = repo.try_fold(nm, ce)
+                if not isinstance(name, str):
+                    raise AnalysisError('register_source: template name %s is not a constant' % short(nm, 60))
+                out[name] = (norm(sx) if isinstance(sx, ast.Name) else name, sx)
+    return out, n_calls, called
+
+
+def _names(e):
+    return set(n.id for n in ast.walk(e) if isinstance(n, ast.Name))
+
+
+def _subst(e, env):
+    if not env:
+        return e
+
+    class S(ast.NodeTransformer):
+        def visit_Name(self, node):
+            if isinstance(node.ctx, ast.Load) and node.id in env:
+                return copy.deepcopy(env[node.id])
+            return node
+    return S().visit(copy.deepcopy(e))
+
+
+def _loop_rows(repo, mod, fi, loop):
+    """[{loop variable: element expression}] for a ``for`` over a literal list / tuple of tuples (or over the items of a
+    literal dict), written in place, named by a single-assignment local or by a module constant."""
+    it = loop.iter
+    if fi is not None:
+        it = expand_expr(fi, it, loop)
+    def module_const(e):
+        # a module-level name bound once to a display
+        if isinstance(e, ast.Name) and (fi is None or not (e.id in _param_names(fi) or _name_stores(fi, e.id))):
+            vals = [v for v in mod.assigns.get(e.id, [])]
+            if len(vals) == 1 and isinstance(vals[0], ast.expr):
+                return vals[0]
+        return e
+    it = module_const(it)
+    elems = None
+    if isinstance(it, (ast.List, ast.Tuple)):
+        elems = list(it.elts)
+    elif isinstance(it, ast.Call) and isinstance(it.func, ast.Attribute) and it.func.attr == 'items' and not it.args and not it.keywords and \
+            isinstance(module_const(it.func.value), ast.Dict) and all(k is not None for k in module_const(it.func.value).keys):
+        d = module_const(it.func.value)
+        elems = [ast.Tuple(elts=[k, v], ctx=ast.Load()) for k, v in zip(d.keys, d.values)]
+    elif isinstance(it, ast.Call) and isinstance(it.func, ast.Name) and it.func.id == 'zip' and len(it.args) >= 2 and \
+            all(isinstance(a, (ast.List, ast.Tuple)) for a in it.args) and len(set(len(a.elts) for a in it.args)) == 1:
+        elems = [ast.Tuple(elts=list(col), ctx=ast.Load()) for col in zip(*[a.elts for a in it.args])]
+    if elems is None or any(isinstance(x, ast.Starred) for x in elems):
+        raise AnalysisError('register_source inside a loop over %s: the table of templates is not a literal' % short(loop.iter, 60))
+    rows = []
+    tgt = loop.target
+    for el in elems:
+        if isinstance(tgt, ast.Name):
+            rows.append({tgt.id: el})
+        elif isinstance(tgt, (ast.Tuple, ast.List)) and isinstance(el, (ast.Tuple, ast.List)) and len(tgt.elts) == len(el.elts) and \
+                all(isinstance(t, ast.Name) for t in tgt.elts):
+            rows.append(dict((t.id, v) for t, v in zip(tgt.elts, el.elts)))
+        else:
+            raise AnalysisError('register_source inside a loop: cannot match the loop target %s with the row %s' % (short(tgt, 40), short(el, 40)))
+    return rows
+
+
+# ---------------------------------------------------------------------------------------------- the check
+def _guarded(rep, fn, *args):
+    """Run one rule group: an AnalysisError (or an internal error of the rule) is recorded as an analysis gap of this
+    group, the other groups still run."""
+    def group():
+        try:
+            return fn(*args)
+        except AnalysisError:
+            raise
+        except Exception as e:   # a crash inside a rule is "cannot analyse", never a verdict
+            import traceback
+            raise AnalysisError('internal error in %s: %s: %s [%s]' % (fn.__name__, type(e).__name__, e,
+                                                                      traceback.format_exc().strip().splitlines()[-3].strip()))
+    group.__name__ = fn.__name__
+    return rep.guard(group)
 
 
 def run(rep):
@@ -135,9 +945,26 @@ def run(rep):
 
     base = err.cls('HTTPException')
     fam = [base] + repo.subclasses(base, [err])
-    std = dict((k, int(v)) for k, v in http.HTTPStatus.__members__.items())
+    _guarded(rep, rule_a, rep, repo, err, base, fam)
+    _guarded(rep, rule_b, rep, repo, err, app, base)
+    _guarded(rep, rule_c, rep, repo, err, base, fam)
+    _guarded(rep, rule_d, rep, repo, err, fam)
+    _guarded(rep, rule_e, rep, repo, err, base, fam)
 
-    # ---- R09.a -----------------------------------------------------------
+
+def _base_init_positional(repo, err, base):
+    """Positional parameter names of the response base class' __init__ (read from the pinned source)."""
+    for b in base.node.bases:
+        r = repo.resolve_class(err, b)
+        if isinstance(r, ClassInfo) and r.name != 'Exception':
+            init = repo.find_method(r, '__init__')
+            if init is not None and not init.node.args.vararg:
+                return [x.arg for x in init.node.args.posonlyargs + init.node.args.args][1:]
+    return []
+
+
+def rule_a(rep, repo, err, base, fam):
+    std = dict((k, int(v)) for k, v in http.HTTPStatus.__members__.items())
     codes = {}
     n = 0
     for c in fam:
@@ -165,24 +992,37 @@ def run(rep):
     rep.check('R09.a', '%s::unique codes' % ERR, not dup, 'no two error classes share a code (ERROR_CODE_MAP keeps all)' if not dup else
               'classes share a status code (ERROR_CODE_MAP silently keeps one): %s' % dup, err)
     init = base.methods['__init__']
-    sup = [c for c in walk_body(init.node) if isinstance(c, ast.Call) and call_tail(c) == '__init__' and 'super' in norm(c.func)]
-    ok = len(sup) == 1 and norm(kwarg(sup[0], 'status')) == 'self.code'
-    cs_ = [s for s in stmts_of(init.node) if isinstance(s, ast.Assign) and norm(s.targets[0]) == 'self.code']
+    base_names = [norm(b) for b in base.node.bases]
+    sup = [c for c in walk_body(init.node) if isinstance(c, ast.Call) and isinstance(c.func, ast.Attribute) and c.func.attr == '__init__' and
+           ('super' in norm(c.func) or norm(c.func.value) in base_names)]
+    if len(sup) != 1:
+        raise AnalysisError('HTTPException.__init__: the call of the response base class __init__ was not found (%d candidates)' % len(sup))
+    pos = _base_init_positional(repo, err, base)
+    if 'super' not in norm(sup[0].func):
+        pos = ['self'] + pos
+    kw, opaque = call_keywords(init, sup[0], pos)
+    sst = stmt_of(err, sup[0])
+
+    def arg(name):
+        return norm(expand_expr(init, kw[name], sst)) if name in kw else None
+    ok = arg('status') == 'self.code'
+    cs_ = [s for s in stmts_of(init.node) if isinstance(s, ast.Assign) and any(norm(t) == 'self.code' for t in s.targets)]
     icfg = cfg_of(init)
-    ok = ok and len(cs_) == 1 and norm(cs_[0].value) == "kwargs.pop('code', self.code)" and \
-        icfg.must_pass(icfg.nodes_of(cs_[0]), icfg.entry, icfg.nodes_of(stmt_of(err, sup[0])))
+    ok = ok and len(cs_) == 1 and norm(expand_expr(init, cs_[0].value, cs_[0])) == "kwargs.pop('code', self.code)" and \
+        icfg.must_pass(icfg.nodes_of(cs_[0]), icfg.entry, icfg.nodes_of(sst))
     rep.check('R09.a', fkey(init, 'status=self.code'), ok, 'the response status is the instance code (given code, else the class code)' if ok else
               'BaseResponse.__init__ is not given status=self.code after self.code = kwargs.pop(\'code\', self.code)', err, init.node)
-    ok = len(sup) == 1 and norm(kwarg(sup[0], 'response')) == 'self.to_text()' and norm(kwarg(sup[0], 'mimetype')) == 'DEFAULT_MIME'
+    ok = arg('response') == 'self.to_text()' and arg('mimetype') == 'DEFAULT_MIME'
     rep.check('R09.a', fkey(init, 'default body'), ok, 'the default body is the plain-text rendering, labelled DEFAULT_MIME' if ok else
               'the default body / mimetype pair of HTTPException changed', err, init.node)
 
-    # ---- R09.b -----------------------------------------------------------
+
+def rule_b(rep, repo, err, app, base):
     try:
-        msm = err.const('MIME_SUPPORT_MAP')
+        msm = err.const(TABLE)
         dm = err.const('DEFAULT_MIME')
     except Exception as e:
-        raise AnalysisError('cannot fold MIME_SUPPORT_MAP: %s' % e)
+        raise AnalysisError('cannot fold %s: %s' % (TABLE, e))
     for mime, fmt in sorted(msm.items()):
         m = repo.find_method(base, 'to_' + fmt)
         rep.check('R09.b', '%s::MIME_SUPPORT_MAP[%s]' % (ERR, mime), m is not None, '%s -> to_%s exists' % (mime, fmt) if m else
@@ -192,150 +1032,72 @@ def run(rep):
               'media type -> format pairs changed: %s' % msm, err)
     rep.check('R09.b', '%s::DEFAULT_MIME' % ERR, dm in msm and msm[dm] == 'text', 'DEFAULT_MIME %s is a supported type served as text' % dm if dm in msm and msm.get(dm) == 'text' else
               'DEFAULT_MIME %r is not a supported plain-text type' % dm, err)
-    ad = base.methods['adapt']
-    mp = ad.params()[1]
-    look = [s for s in stmts_of(ad.node) if isinstance(s, ast.Assign) and norm(s.value) == 'MIME_SUPPORT_MAP[%s]' % mp]
-    ok = len(look) == 1
-    fv = norm(look[0].targets[0]) if ok else None
-    h = protected_by(ad, look[0], 'KeyError') if ok else None
-    fb_ok = False
-    if h is not None:
-        asg = [s for s in h.body if isinstance(s, ast.Assign)]
-        if len(asg) == 1 and isinstance(asg[0].targets[0], ast.Tuple) and [norm(t) for t in asg[0].targets[0].elts] == [fv, mp]:
-            pair = repo.try_fold(asg[0].value, err)
-            fb_ok = isinstance(pair, tuple) and msm.get(pair[1]) == pair[0] and pair[0] == 'text'
-    rep.check('R09.b', fkey(ad, 'fallback pair'), ok and fb_ok,
-              'an unsupported type falls back to a (format, mimetype) pair of the table, re-binding both' if ok and fb_ok else
-              'the fallback for unsupported types does not re-bind format and mimetype to a matching pair', err, ad.node)
-    meth = [s for s in stmts_of(ad.node) if isinstance(s, ast.Assign) and isinstance(s.value, ast.Call) and call_name(s.value) == 'getattr'
-            and norm(s.value.args[1]) == "'to_' + %s" % fv]
-    data = [s for s in stmts_of(ad.node) if isinstance(s, ast.Assign) and norm(s.targets[0]) == 'self.data']
-    ct = [s for s in stmts_of(ad.node) if isinstance(s, ast.Assign) and norm(s.targets[0]).lower() == "self.headers['content-type']"]
-    ok = len(meth) == 1 and len(data) == 1 and norm(data[0].value) == '%s()' % norm(meth[0].targets[0]) and len(ct) == 1 and \
-        isinstance(ct[0].value, ast.Call) and call_name(ct[0].value) == 'get_content_type' and norm(ct[0].value.args[0]) == mp
-    acfg = cfg_of(ad)
-    ok = ok and acfg.must_pass(acfg.nodes_of(data[0]), acfg.entry, acfg.exit, normal_only=True) and \
-        acfg.must_pass(acfg.nodes_of(ct[0]), acfg.entry, acfg.exit, normal_only=True)
-    rep.check('R09.b', fkey(ad, 'body and header from one pair'), ok,
-              'self.data = to_<fmt>() and Content-Type = get_content_type(mimetype) use the same (fmt, mimetype) on every path' if ok else
-              'body and Content-Type are not both derived from the one (format, mimetype) pair', err, ad.node)
+    _guarded(rep, check_adapt, rep, repo, err, base, msm)
     for mod_, fi in ((err, err.func('ErrorHandler.render_error')), (app, app.func('default_render_error'))):
-        bm = [s for s in stmts_of(fi.node) if isinstance(s, ast.Assign) and isinstance(s.value, ast.Call) and call_tail(s.value) == 'best_match']
-        ok = len(bm) == 1 and norm(bm[0].value.args[0]) == 'MIME_SUPPORT_MAP' and 'accept_mimetypes' in norm(bm[0].value.func)
         ac = [c for c in walk_body(fi.node) if isinstance(c, ast.Call) and norm(c.func) == '_error.adapt']
-        ok = ok and len(ac) == 1 and norm(ac[0].args[0]) == norm(bm[0].targets[0]) and all(norm(r.value) == '_error' for r in returns_of(fi)) and returns_of(fi)
+        if not ac:
+            raise AnalysisError('%s: the call _error.adapt(...) was not found' % fi.qualname)
+        a0 = argn(ac[0], 'mimetype', 0)
+        ok = len(ac) == 1 and a0 is not None and negotiated_over_table(repo, err, mod_, fi, a0, stmt_of(mod_, ac[0])) and \
+            all(r.value is not None and norm(r.value) == '_error' for r in returns_of(fi)) and bool(returns_of(fi))
         if ok:
             # ... on every path: a return that skips adapt() leaves body and Content-Type as constructed
             fcfg = cfg_of(fi)
             ok = fcfg.must_pass(fcfg.nodes_of(stmt_of(mod_, ac[0])), fcfg.entry, fcfg.exit, normal_only=True)
         rep.check('R09.b', fkey(fi), bool(ok), 'negotiates over MIME_SUPPORT_MAP, adapts the error to the winner and returns it' if ok else
                   '%s does not negotiate over MIME_SUPPORT_MAP / adapt / return the same error' % fi.qualname, mod_, fi.node)
-    if app.resolve if False else True:
-        k, m_, obj = repo.resolve(app, 'MIME_SUPPORT_MAP')
+    k, m_, obj = repo.resolve(app, TABLE)
+    if k == 'unknown':
+        # application.py no longer names the table itself (the negotiation moved into the errors module): the
+        # per-function obligation above has already established which table is used
+        rep.ok('R09.b', 'clastic.application::MIME_SUPPORT_MAP', 'application.py does not define a table of its own', app)
+    else:
         rep.check('R09.b', 'clastic.application::MIME_SUPPORT_MAP', m_ is err, 'default_render_error uses the errors module\'s table' if m_ is err else
                   'application.py uses a different MIME_SUPPORT_MAP', app)
     rep.floor('R09.b', 10)
 
-    # ---- R09.c -----------------------------------------------------------
+
+def rule_c(rep, repo, err, base, fam):
     k, m_, he = repo.resolve(err, 'html_escape')
     ok = (k == 'external' and he in ('html.escape', 'cgi.escape')) or \
         (k == 'func' and he.name == 'escape' and he.mod.name in ('html', 'cgi'))
     rep.check('R09.c', '%s::html_escape' % ERR, ok, 'html_escape is the standard library\'s html.escape' if ok else 'html_escape resolves to %s' % (he,), err)
-    ted = base.methods['to_escaped_dict']
-    rets = returns_of(ted)
-    rv = norm(rets[0].value) if len(rets) == 1 else None
-    stores = [s for s in stmts_of(ted.node) if isinstance(s, ast.Assign) and isinstance(s.targets[0], ast.Subscript) and norm(s.targets[0].value) == rv]
-    if len(stores) < 2:
-        raise AnalysisError('to_escaped_dict: stores into the result dict not found')
-    for s in stores:
-        v = s.value
-        ok = (isinstance(v, ast.Constant) and v.value == '') or \
-            (isinstance(v, ast.Call) and call_name(v) == 'html_escape' and len(v.args) == 2 and isinstance(v.args[1], ast.Constant) and v.args[1].value is True) or \
-            (isinstance(v, ast.Call) and call_name(v) == 'html_escape' and isinstance(kwarg(v, 'quote'), ast.Constant) and kwarg(v, 'quote').value is True)
-        rep.check('R09.c', fkey(ted, s), ok, 'stored value is %s' % short(v, 50) if ok else
-                  'to_escaped_dict stores %s: not html_escape(x, True) (quotes must be escaped: error_type is placed in an attribute)' % short(v), err, s)
-    loop = [s for s in stmts_of(ted.node) if isinstance(s, ast.For)]
-    ok = len(loop) == 1 and norm(loop[0].iter) == 'self.to_dict().items()' and all(cfgn for cfgn in [1])
-    tcfg = cfg_of(ted)
-    # every iteration stores: the loop head is only re-entered through a store
-    iter_nodes = [n.id for n in tcfg.nodes if n.kind == 'iter' and n.stmt is (loop[0] if loop else None)]
-    ok = ok and tcfg.must_pass(tcfg.nodes_of_all(stores), iter_nodes, tcfg.nodes_of(loop[0]), normal_only=True)
-    rep.check('R09.c', fkey(ted, 'all fields'), ok, 'every field of to_dict() gets an escaped entry' if ok else
-              'to_escaped_dict can skip fields of to_dict()', err, ted.node)
-    n_sinks = 0
-    for c in fam:
-        for name in ('to_html', 'to_xml'):
-            m = c.methods.get(name)
-            if m is None:
-                continue
-            n_sinks += 1
-            # (B) shipped template
-            rets = returns_of(m)
-            tmpl_rets = [r for r in rets if isinstance(r.value, ast.Call) and norm(r.value.func) == 'CONTEXTUAL_ENV.render']
-            if tmpl_rets and len(tmpl_rets) == len(rets):
-                names = [repo.try_fold(r.value.args[0], err) for r in tmpl_rets]
-                rep.ok('R09.c', fkey(m), 'renders shipped template(s) %s (escaping: R09.d)' % names, err, m.node)
-                continue
-            # (A) format with the escaped dict
-            esc_vars = set(norm(s.targets[0]) for s in stmts_of(m.node) if isinstance(s, ast.Assign) and norm(s.value) == 'self.to_escaped_dict()')
-            sinks = []
-            for n_ in walk_body(m.node):
-                if isinstance(n_, ast.Call) and isinstance(n_.func, ast.Attribute) and n_.func.attr == 'format':
-                    sinks.append(n_)
-                if isinstance(n_, ast.BinOp) and isinstance(n_.op, ast.Mod) and not isinstance(n_.left, ast.Constant) is False:
-                    if isinstance(n_.left, ast.Constant) and isinstance(n_.left.value, str):
-                        sinks.append(n_)
-                if isinstance(n_, ast.JoinedStr) and any(isinstance(v, ast.FormattedValue) for v in n_.values):
-                    sinks.append(n_)
-            bad = []
-            for s in sinks:
-                if isinstance(s, ast.Call):
-                    star = [k_.value for k_ in s.keywords if k_.arg is None]
-                    if len(star) == 1 and not s.args and len(s.keywords) == 1 and norm(star[0]) in esc_vars:
-                        continue
-                    bad.append(s)
-                else:
-                    bad.append(s)
-            ok = bool(sinks) and not bad and bool(esc_vars)
-            rep.check('R09.c', fkey(m), ok, 'markup is built by .format(**to_escaped_dict()) only' if ok else
-                      '%s.%s interpolates unescaped fields into markup: %s' % (c.name, name, [short(b) for b in bad] or 'no escaped mapping'), err,
-                      (bad or [m.node])[0])
-            # no direct use of raw fields in the returned string
-            raw = [n_ for n_ in walk_body(m.node) if isinstance(n_, ast.Call) and norm(n_.func) == 'self.to_dict']
-            rep.check('R09.c', fkey(m, 'no raw dict'), not raw, 'the raw to_dict() is not used for markup' if not raw else
-                      '%s.%s uses the unescaped to_dict()' % (c.name, name), err, raw[0] if raw else m.node)
-    if n_sinks < 4:
-        raise AnalysisError('only %d to_html/to_xml methods found (floor 4)' % n_sinks)
+    _guarded(rep, check_escaped_dict, rep, repo, err, base)
+    _guarded(rep, check_markup_sinks, rep, repo, err, fam)
     if check_template_constancy(rep, 'R09.c') < 3:
         raise AnalysisError('format sinks in the to_* serialisers not found')
     check_escape_total(rep, 'R09.c')
     rep.floor('R09.c', 8)
 
-    # ---- R09.d -----------------------------------------------------------
+
+def rule_d(rep, repo, err, fam):
     ce = repo.mod('clastic._contextual_errors')
-    reg = ce.func('_register_templates')
-    registered = {}
-    for c in walk_body(reg.node):
-        if isinstance(c, ast.Call) and norm(c.func) == 'CONTEXTUAL_ENV.register_source' and len(c.args) == 2:
-            registered[repo.try_fold(c.args[0], ce)] = norm(c.args[1])
+    registered, n_calls, called = registered_templates(repo, ce)
+    total = sum(1 for n_ in ast.walk(ce.tree) if isinstance(n_, ast.Call) and norm(n_.func) == 'CONTEXTUAL_ENV.register_source')
+    if not total:
+        raise AnalysisError('no CONTEXTUAL_ENV.register_source(...) call was found in %s' % ce.name)
+    rep.check('R09.d', 'clastic._contextual_errors::_register_templates()', n_calls == total, 'templates are registered at import' if n_calls == total else
+              '%d of %d register_source calls are in code the module never runs at import' % (total - n_calls, total), ce)
     used = set()
     for c in fam:
         for m in c.methods.values():
             for cl in walk_body(m.node):
                 if isinstance(cl, ast.Call) and norm(cl.func) == 'CONTEXTUAL_ENV.render':
-                    used.add(repo.try_fold(cl.args[0], err))
+                    used.add(_template_name(repo, err, m, cl))
     for name in sorted(used):
         rep.check('R09.d', 'clastic._contextual_errors::registered %s' % name, name in registered, 'template %s is registered' % name if name in registered else
                   'template %r is rendered but never registered' % name, ce)
-    for name, const in sorted(registered.items()):
+    for name, (label, sx) in sorted(registered.items()):
         try:
-            text = ce.const(const)
+            text = repo.fold(sx, ce)
         except Exception as e:
-            raise AnalysisError('cannot fold template constant %s: %s' % (const, e))
-        tags = check_template_escaping(rep, 'R09.d', repo, ce, const, text)
+            raise AnalysisError('cannot fold template constant %s: %s' % (label, e))
+        if not isinstance(text, str):
+            raise AnalysisError('template constant %s is not a string' % label)
+        tags = check_template_escaping(rep, 'R09.d', repo, ce, label, text)
         nrefs = len([t for t in tags if t.kind == 'ref'])
         if nrefs < 5:
-            raise AnalysisError('template %s: only %d references found' % (const, nrefs))
+            raise AnalysisError('template %s: only %d references found' % (label, nrefs))
     aw = autoescape_writes(repo)
     rep.check('R09.d', 'clastic::autoescape_filter', not aw, 'no code in clastic assigns autoescape_filter' if not aw else
               'autoescape_filter is assigned somewhere in clastic', ce)
@@ -343,28 +1105,44 @@ def run(rep):
     ok = len(env) == 1 and isinstance(env[0], ast.Call) and norm(env[0].func).endswith('AshesEnv') and not env[0].args and not env[0].keywords
     rep.check('R09.d', 'clastic._contextual_errors::CONTEXTUAL_ENV', ok, 'the debug environment is a default AshesEnv (autoescape h)' if ok else
               'CONTEXTUAL_ENV is not a default AshesEnv()', ce)
-    calls_reg = [n_ for n_ in ce.tree.body if isinstance(n_, ast.Expr) and isinstance(n_.value, ast.Call) and call_name(n_.value) == '_register_templates']
-    rep.check('R09.d', 'clastic._contextual_errors::_register_templates()', len(calls_reg) == 1, 'templates are registered at import' if calls_reg else
-              '_register_templates is never called', ce)
     rep.floor('R09.d', 40)
 
-    # ---- R09.e -----------------------------------------------------------
+
+def _dict_items(e):
+    """key -> value expression of a dict display / dict(k=v) call; None when it is neither."""
+    if isinstance(e, ast.Dict) or (isinstance(e, ast.Call) and isinstance(e.func, ast.Name) and e.func.id == 'dict'):
+        out = {}
+        try:
+            for l in layers_of_expr(e):
+                if l.kind == 'literal':
+                    out.update(l.values)
+        except AnalysisError:
+            return None
+        return out
+    return None
+
+
+def rule_e(rep, repo, err, base, fam):
     tj = base.methods['to_json']
     rets = returns_of(tj)
-    ok = len(rets) == 1 and isinstance(rets[0].value, ast.Call) and call_tail(rets[0].value) == 'encode' and norm(rets[0].value.args[0]) == 'self.to_dict()'
+    ok = False
+    if len(rets) == 1 and rets[0].value is not None:
+        rv = expand_expr(tj, rets[0].value, rets[0])
+        ok = isinstance(rv, ast.Call) and call_tail(rv) in ('encode', 'dumps') and bool(rv.args) and norm(rv.args[0]) == 'self.to_dict()'
     rep.check('R09.e', fkey(tj), ok, 'to_json encodes self.to_dict()' if ok else 'to_json does not encode self.to_dict()', err, tj.node)
     td = base.methods['to_dict']
-    keys = set()
-    for n_ in walk_body(td.node):
-        if isinstance(n_, ast.Dict):
-            keys |= set(k_.value for k_ in n_.keys if isinstance(k_, ast.Constant))
-    need = {'code', 'message', 'detail', 'error_type'}
-    ok = need <= keys
     vals = {}
     for n_ in walk_body(td.node):
-        if isinstance(n_, ast.Dict):
-            vals.update((k_.value, norm(v)) for k_, v in zip(n_.keys, n_.values) if isinstance(k_, ast.Constant))
-    ok = ok and all(vals.get(k_) == 'self.%s' % k_ for k_ in need)
+        d = _dict_items(n_)
+        if d:
+            vals.update((k_, norm(v)) for k_, v in d.items())
+    for s in stmts_of(td.node):
+        if isinstance(s, ast.Assign):
+            for t in s.targets:
+                if isinstance(t, ast.Subscript) and isinstance(t.slice, ast.Constant):
+                    vals[t.slice.value] = norm(s.value)
+    need = {'code', 'message', 'detail', 'error_type'}
+    ok = all(vals.get(k_) == 'self.%s' % k_ for k_ in need)
     rep.check('R09.e', fkey(td), ok, 'to_dict carries code, message, detail, error_type of the instance' if ok else
               'base to_dict lacks/mis-binds one of %s: %s' % (sorted(need), vals), err, td.node)
     for c in fam:
@@ -373,11 +1151,37 @@ def run(rep):
         m = c.methods.get('to_dict')
         if m is None:
             continue
-        sups = [s for s in stmts_of(m.node) if isinstance(s, ast.Assign) and isinstance(s.value, ast.Call) and call_tail(s.value) == 'to_dict'
-                and 'super' in norm(s.value.func)]
-        ok = len(sups) == 1 and all(norm(r.value) == norm(sups[0].targets[0]) for r in returns_of(m)) and returns_of(m)
+        bases = [norm(b) for b in c.node.bases]
+
+        def is_super_dict(e):
+            return isinstance(e, ast.Call) and isinstance(e.func, ast.Attribute) and e.func.attr == 'to_dict' and \
+                ('super' in norm(e.func) or norm(e.func.value) in bases)
+        rets = returns_of(m)
+        ok = bool(rets) and not _falls_off(m)
+        holders = set()
+        for r in rets:
+            if r.value is None:
+                ok = False
+                continue
+            if isinstance(r.value, ast.Name):
+                # the local that holds the super() result (assigned once, extended in place afterwards)
+                binds = assigned_value(m.node, r.value.id)
+                if len(binds) == 1 and binds[0][2] is None and isinstance(binds[0][0], ast.Assign) and is_super_dict(binds[0][1]):
+                    holders.add(r.value.id)
+                    continue
+            # ... or a merge whose bottom layer is the super() result and whose own keys do not replace a standard field
+            try:
+                ls = layers_of_expr(expand_expr(m, r.value, r))
+            except AnalysisError:
+                ls = []
+            if not (ls and ls[0].kind == 'source' and is_super_dict(ls[0].node) and
+                    all(l.kind == 'literal' and not (set(l.keys) & need) for l in ls[1:])):
+                ok = False
         dels = [n_ for n_ in walk_body(m.node) if isinstance(n_, ast.Delete) and any(isinstance(t.slice, ast.Constant) and t.slice.value in need
                                                                                   for t in n_.targets if isinstance(t, ast.Subscript))]
-        rep.check('R09.e', fkey(m), bool(ok) and not dels, '%s.to_dict extends the super() result' % c.name if ok and not dels else
+        pops = [n_ for n_ in walk_body(m.node) if isinstance(n_, ast.Call) and isinstance(n_.func, ast.Attribute) and
+                norm(n_.func.value) in holders and n_.func.attr in ('pop', 'clear', 'popitem') and
+                (n_.func.attr != 'pop' or not n_.args or not isinstance(n_.args[0], ast.Constant) or n_.args[0].value in need)]
+        rep.check('R09.e', fkey(m), bool(ok) and not dels and not pops, '%s.to_dict extends the super() result' % c.name if ok and not dels and not pops else
                   '%s.to_dict does not return the extended super().to_dict() (standard fields may be lost)' % c.name, err, m.node)
     rep.floor('R09.e', 4)
